@@ -289,7 +289,7 @@ RATIOS = {"add": [0.37, -2.6, 1.0, 1234.5], "sub": [0.37, -2.6, 1.0, 1234.5],
 CMP_RATIOS = [1.000001, 0.999999, 1.0, -7.25]
 for _o in arith.COMPARE:
     RATIOS[_o] = CMP_RATIOS
-NLEN = {"uv": 1, "ua": 2, "ua3": 3, "int": 1, "float": 1}
+NLEN = {"uv": 1, "ua": 2, "ua3": 3, "ua1": 1, "int": 1, "float": 1}
 
 
 def _q(kind, vals, sys3, dim):
@@ -503,12 +503,14 @@ def _spaces(tier):
                     "{unrelated magnitudes, equal stored numbers, equal SI numbers}",
                     [Block([PAIRS, OPK_MISMATCH, SYSP, [0, 1, 2]], b_mis)]))
 
+    LENPAIRS = [("ua", "ua3"), ("ua3", "ua"), ("ua1", "ua"), ("ua", "ua1"), ("ua1", "ua3"), ("ua3", "ua1")]
+
     def b_len(dim, op, order, ss):
-        kL, kR = ("ua", "ua3") if order == 0 else ("ua3", "ua")
+        kL, kR = LENPAIRS[order]
         L, R = indep_pair(kL, kR, ss[0], ss[1], dim, dim, 0, 0)
         return {"sub": "length", "expr": {"op": op, "args": [L, R]}}
-    sp.append(Space("length: arrays of length 2 and 3, both orders x {+ - * / %} x cube x {same, different} "
-                    "systems (must raise)", [Block([CUBE, ARITH5, [0, 1], SYSP], b_len)]))
+    sp.append(Space("length: arrays of different lengths (2/3, 1/2, 1/3; a length-1 array is still an array), both orders x "
+                    "{+ - * / %} x cube x {same, different} systems (must raise)", [Block([CUBE, ARITH5, list(range(6)), SYSP], b_len)]))
 
     # (d) depth-2 trees
     T3 = [si.DEFAULT, si.MIXED[0], si.MIXED[3]] if thorough else [si.DEFAULT, si.MIXED[3]]
